@@ -5,7 +5,7 @@ cycle adjustment, the `op_*` routines written against `cmdRead/cmdRead16/cmdWrit
 The dual register copies (RA vs RAh:RAl, RX vs RXl, RY vs RYl) are modelled as they are.
 Tied to the Go code by `vh cpu` (both real CPUs in lockstep against this model, compiled into ModelDrv).
 
-Not modelled: NMI/IRQ entry (`Interrupt` is idle), the OnPC / OnWDM callbacks (see System/RunUntil.lean), logging.
+NMI/IRQ entry, the interrupt latch, Reset and the triggers are in Cpu/InterruptModel.lean (`stepFull`).  Not modelled here: the OnPC / OnWDM callbacks (see System/RunUntil.lean), logging.
 A bus access with an address ≥ 2^24 is the Go index-out-of-range panic: the `none` result.
 Status flags are `Bool` (the Go bytes hold 0/1 in every state the harness constructs — stated assumption).
 -/
